@@ -10,6 +10,7 @@
 #include <etl/_numeric/lcm.hpp>
 #include <etl/_ratio/ratio.hpp>
 #include <etl/_ratio/ratio_divide.hpp>
+#include <etl/_type_traits/bool_constant.hpp>
 #include <etl/_type_traits/common_type.hpp>
 #include <etl/_type_traits/is_convertible.hpp>
 
@@ -206,6 +207,19 @@ private:
     rep _rep{};
 };
 
+namespace detail {
+
+template <typename T>
+struct is_duration : etl::false_type { };
+
+template <typename Rep, typename Period>
+struct is_duration<etl::chrono::duration<Rep, Period>> : etl::true_type { };
+
+template <typename T>
+inline constexpr auto is_duration_v = is_duration<T>::value;
+
+} // namespace detail
+
 } // namespace etl::chrono
 
 namespace etl {
@@ -295,6 +309,80 @@ template <typename Rep1, typename Period1, typename Rep2, typename Period2>
     using CD = common_type_t<duration<Rep1, Period1>, duration<Rep2, Period2>>;
     using CR = typename CD::rep;
     return CD(static_cast<CR>(CD(lhs).count() % CD(rhs).count()));
+}
+
+/// Performs basic arithmetic operations between two durations or between
+/// a duration and a tick count.
+///
+/// \details Converts the duration d to one whose rep is the common type
+/// between Rep1 and Rep2, and multiples the number of ticks after conversion by
+/// s. Only participates in overload resolution if Rep2 const& is implicitly
+/// convertible to common_type_t<Rep1, Rep2>.
+///
+/// https://en.cppreference.com/w/cpp/chrono/duration/operator_arith4
+template <typename Rep1, typename Period, typename Rep2>
+    requires(is_convertible_v<Rep2 const&, common_type_t<Rep1, Rep2>>)
+[[nodiscard]] constexpr auto operator*(duration<Rep1, Period> const& d, Rep2 const& s)
+    -> duration<common_type_t<Rep1, Rep2>, Period>
+{
+    using CD = duration<common_type_t<Rep1, Rep2>, Period>;
+    return CD(CD(d).count() * s);
+}
+
+/// Performs basic arithmetic operations between two durations or between
+/// a duration and a tick count.
+///
+/// \details Converts the duration d to one whose rep is the common type
+/// between Rep1 and Rep2, and multiples the number of ticks after conversion by
+/// s. Only participates in overload resolution if Rep1 const& is implicitly
+/// convertible to common_type_t<Rep1, Rep2>.
+///
+/// https://en.cppreference.com/w/cpp/chrono/duration/operator_arith4
+template <typename Rep1, typename Rep2, typename Period>
+    requires(is_convertible_v<Rep1 const&, common_type_t<Rep1, Rep2>>)
+[[nodiscard]] constexpr auto operator*(Rep1 const& s, duration<Rep2, Period> const& d)
+    -> duration<common_type_t<Rep1, Rep2>, Period>
+{
+    return d * s;
+}
+
+/// Performs basic arithmetic operations between two durations or between
+/// a duration and a tick count.
+///
+/// \details Converts the duration d to one whose rep is the common type
+/// between Rep1 and Rep2, and divides the number of ticks after conversion by
+/// s. Only participates in overload resolution if Rep2 const& is implicitly
+/// convertible to common_type_t<Rep1, Rep2> and Rep2 is not a specialization
+/// of duration.
+///
+/// https://en.cppreference.com/w/cpp/chrono/duration/operator_arith4
+template <typename Rep1, typename Period, typename Rep2>
+    requires(not detail::is_duration_v<Rep2> and is_convertible_v<Rep2 const&, common_type_t<Rep1, Rep2>>)
+[[nodiscard]] constexpr auto operator/(duration<Rep1, Period> const& d, Rep2 const& s)
+    -> duration<common_type_t<Rep1, Rep2>, Period>
+{
+    using CD = duration<common_type_t<Rep1, Rep2>, Period>;
+    return CD(CD(d).count() / s);
+}
+
+/// Performs basic arithmetic operations between two durations or between
+/// a duration and a tick count.
+///
+/// \details Converts the duration d to one whose rep is the common type
+/// between Rep1 and Rep2, and creates a duration whose tick count is the
+/// remainder of the division of the tick count, after conversion, by s. Only
+/// participates in overload resolution if Rep2 const& is implicitly
+/// convertible to common_type_t<Rep1, Rep2> and Rep2 is not a specialization
+/// of duration.
+///
+/// https://en.cppreference.com/w/cpp/chrono/duration/operator_arith4
+template <typename Rep1, typename Period, typename Rep2>
+    requires(not detail::is_duration_v<Rep2> and is_convertible_v<Rep2 const&, common_type_t<Rep1, Rep2>>)
+[[nodiscard]] constexpr auto operator%(duration<Rep1, Period> const& d, Rep2 const& s)
+    -> duration<common_type_t<Rep1, Rep2>, Period>
+{
+    using CD = duration<common_type_t<Rep1, Rep2>, Period>;
+    return CD(CD(d).count() % s);
 }
 
 /// Compares two durations. Checks if lhs and rhs are equal, i.e. the
